@@ -1,6 +1,7 @@
 (* C14 — examples: the hypotheses of the property theorems are satisfiable by
    non-trivial inputs, and the models compute the published values. *)
 From Coq Require Import Sorting.Sorted Sorting.Permutation.
+From Sdns Require C02.Model C02.Proofs_Gen.
 From Sdns Require Import Common.Base Common.GoList Gen.C14 C14.Model C14.Run
   C14.Proofs_rsa C14.Proofs_keytag C14.Proofs_rsamd5 C14.Proofs_canon C14.Proofs_verify C14.Proofs_offset C14.Proofs_walk C14.Proofs_loops.
 Open Scope N_scope.
@@ -103,6 +104,8 @@ Example walk_example_accepted :
   verify_rrsig H F2 F4 EDV (fun _ _ _ => 5) (bs "example") keys walk_example_answer walk_example_ns = true /\
   walk_records (bs "example") walk_example_answer walk_example_ns = [walk_example_dname; walk_example_a] /\
   is_synthesized_cname (r_name walk_example_cname) (rr_target walk_example_cname) [(bs "D.example.", bs "t.net.")] = true /\
+  is_synthesized_cname_spec (r_name walk_example_cname) (rr_target walk_example_cname) [(bs "D.example.", bs "t.net.")] = true /\
+  compare_suffix (bs "D.example.") (bs "x.d.Example.") = 2 /\
   (* without the A RRset's signature the message is refused; a foreign answer record is fatal *)
   verify_rrsig H F2 F4 EDV (fun _ _ _ => 5) (bs "example") keys (removelast walk_example_answer) walk_example_ns = false /\
   verify_rrsig H F2 F4 EDV (fun _ _ _ => 5) (bs "example") keys
@@ -145,3 +148,15 @@ Example walk_remnant_example :
     (walk_example_ns ++ [MR (mk_rr (bs "sub.example.") 16 1 60 (bs "TXT") [FBytes [1; 120]])]) = false /\
   walk_verdict (fun set s v => v) (bs "example") walk_example_answer walk_example_ns = true.
 Proof. vm_compute. repeat split; reflexivity. Qed.
+
+(* escape-free names satisfy the hypotheses of compare_suffix_counts_shared_labels *)
+Example compare_suffix_plain_example :
+  let a := [bs "www"; bs "Example"; bs "com"] in
+  let b := [bs "mail"; bs "example"; bs "COM"] in
+  C02.Proofs_Gen.plain_name a /\ C02.Proofs_Gen.plain_name b /\
+  C02.Proofs_Gen.present a = bs "www.Example.com." /\
+  compare_suffix (C02.Proofs_Gen.present a) (C02.Proofs_Gen.present b) = 2.
+Proof.
+  cbv zeta. split; [|split; [|split; vm_compute; reflexivity]];
+  repeat (apply Forall_cons; [split; [discriminate | split; vm_compute; intuition discriminate]|]); apply Forall_nil.
+Qed.
